@@ -68,6 +68,26 @@ Definition known_sink (k : g_sink) : bool :=
   forallb known_path (k_paths k) && negb (match k_paths k with [] => true | _ => false end) && Nat.leb (k_parents k) 1.
 Definition unknown_sinks (l : list g_sink) : list g_sink := filter (fun k => negb (known_sink k)) l.
 
+(* ---- the callee census (round 5, second pass) -------------------------------------------------------------- *)
+(* an in-place edit (.push / .pop / .set_file_name / .set_extension / .with_file_name / .with_extension / .extend / .clear ...)
+   outside the compiled builders, with the kind of value it is applied to *)
+Inductive g_edit_kind :=
+| EkString        (* a String (a char is pushed, or the receiver is bound by String::new / format! / a String parameter) *)
+| EkVec           (* a Vec / map that holds no paths *)
+| EkRootAdded     (* the constructor pushes one of its own root arguments onto its list of roots *)
+| EkPath          (* a Path / PathBuf: the path is changed after it was built *)
+| EkUnknown.
+Record g_edit := { e_file : string; e_fn : string; e_text : string; e_kind : g_edit_kind }.
+Definition harmless_edit (e : g_edit) : bool :=
+  match e_kind e with EkString | EkVec | EkRootAdded => true | EkPath | EkUnknown => false end.
+Definition path_edits (l : list g_edit) : list g_edit := filter (fun e => negb (harmless_edit e)) l.
+(* a call that reaches the file system (file, fn, text) is one of the sinks whose path provenance was derived *)
+Definition sink_key (k : g_sink) : string * string * string := (k_file k, k_fn k, k_text k).
+Definition key_eqb (a b : string * string * string) : bool :=
+  String.eqb (fst (fst a)) (fst (fst b)) && String.eqb (snd (fst a)) (snd (fst b)) && String.eqb (snd a) (snd b).
+Definition uncovered_sink_calls (calls : list (string * string * string)) (sinks : list g_sink) : list (string * string * string) :=
+  filter (fun c => negb (existsb (fun k => key_eqb c (sink_key k)) sinks)) calls.
+
 (* fn names as bytes (Gen/C17Flow.v g_flow_table is the string-free copy of g_consumer_joins the driver uses) *)
 Definition bytes_of_string (s : string) : list Z :=
   map (fun a => Z.of_N (Ascii.N_of_ascii a)) (list_ascii_of_string s).
